@@ -44,6 +44,59 @@ pub fn run(tier: Tier) -> i32 {
             rep.nontriv(*n);
         }
     });
+    // ---- a key written twice in one map (the later occurrence is the key's value): value then null = not defined,
+    // null then value = defined, value then value = the second; for plain values, interpolations, whole groups and
+    // inside a group; every inherits map over three locales
+    {
+        let ls = ["en", "fr", "de"];
+        let maps = inherits_maps(&ls);
+        par_for(maps.len(), |w, i| {
+            let mut cfg = Config::simple("en", &ls);
+            cfg.inherits = maps[i].clone();
+            let mut p = Project::new(cfg);
+            let grp = |l: &str, k: &str, n: u8| Val::Sub(vec![("x".into(), st(&format!("[{l}.{k}.x.{n}]"))), ("y".into(), s(vec![text(&format!("[{l}.{k}.y.{n}]")), var("v")]))]);
+            p.set_file(
+                None,
+                "en",
+                vec![
+                    ("a".into(), st("[en.a]")),
+                    ("b".into(), st("[en.b]")),
+                    ("c".into(), st("[en.c]")),
+                    ("d".into(), s(vec![text("[en.d]"), var("v")])),
+                    ("g".into(), grp("en", "g", 1)),
+                    ("h".into(), grp("en", "h", 1)),
+                    ("j".into(), grp("en", "j", 1)),
+                ],
+            );
+            for (li, l) in ["fr", "de"].iter().enumerate() {
+                let val_then_null = |k: &str, v: Val| vec![(k.to_string(), v), (k.to_string(), Val::Null)];
+                let null_then_val = |k: &str, v: Val| vec![(k.to_string(), Val::Null), (k.to_string(), v)];
+                let mut e: Vec<(String, Val)> = vec![];
+                // (the second non-default locale mirrors the first)
+                let flip = li == 1;
+                let pick = |first: bool, k: &str, v: Val| if first != flip { val_then_null(k, v) } else { null_then_val(k, v) };
+                e.extend(pick(true, "a", st(&format!("[{l}.a]"))));
+                e.extend(pick(false, "b", st(&format!("[{l}.b]"))));
+                e.push(("c".into(), st(&format!("[{l}.c.1]"))));
+                e.extend(pick(true, "d", s(vec![text(&format!("[{l}.d]")), var("v")])));
+                e.extend(pick(true, "g", grp(l, "g", 1)));
+                e.extend(pick(false, "h", grp(l, "h", 1)));
+                // inside a group: x twice (value, null / null, value), y once
+                let xs = pick(true, "x", st(&format!("[{l}.j.x]")));
+                let mut inner = xs;
+                inner.push(("y".into(), s(vec![text(&format!("[{l}.j.y]")), var("v")])));
+                e.push(("j".into(), Val::Sub(inner)));
+                e.push(("c".into(), st(&format!("[{l}.c.2]"))));
+                p.set_file(None, l, e);
+            }
+            let (e, _) = check_project(&rep, "C03", "twice-written-keys", &p, &scratch.worker(w), &keys_total);
+            if e != Expect::Accept {
+                vmodel::report::machinery_fail(&format!("generator produced a project the model does not accept: {e:?}"));
+            }
+            rep.eval(10 * 3);
+        });
+        rep.count("inherits_maps_with_twice_written_keys", maps.len() as u64);
+    }
     rep.count("inherits_maps", jobs.len() as u64);
     for j in [1usize, jobs.len() / 2, jobs.len() - 1] {
         if let Some((p, _, _)) = jobs.get(j) {
@@ -51,9 +104,9 @@ pub fn run(tier: Tier) -> i32 {
         }
     }
     let mut cov = serde_json::Map::new();
-    cov.insert("rule".into(), json!("for each locale set (declared in every order, rotating with the map index: the default first, in the middle, last), every map non-default locale -> {none | any locale incl. itself and the default}; one project per map holding one key per (value kind in str/interp/range/plural) x (presence pattern defined/null/absent per non-default locale), one subkey group per combination of 11 group states per locale (absent, null, sub with each subkey defined/null/absent), and a depth-3 group; every key is compared in every locale: DefaultedLocales::compute() vs the chain walk, and the rendered text (self-identifying tags); evaluations = key x locale pairs; distinct_nontrivial = keys of maps with a non-default target"));
+    cov.insert("rule".into(), json!("for each locale set (declared in every order, rotating with the map index: the default first, in the middle, last), every map non-default locale -> {none | any locale incl. itself and the default}; one project per map holding one key per (value kind in str/interp/range/plural) x (presence pattern defined/null/absent per non-default locale), one subkey group per combination of 11 group states per locale (absent, null, sub with each subkey defined/null/absent), and a depth-3 group; every key is compared in every locale: DefaultedLocales::compute() vs the chain walk, and the rendered text (self-identifying tags); plus, for every map over three locales, a project whose non-default files write keys twice (value then null, null then value, value then value; plain, interpolation, whole group, inside a group): the later occurrence is the key's value; evaluations = key x locale pairs; distinct_nontrivial = keys of maps with a non-default target"));
     cov.insert("exhaustive".into(), json!(true));
     cov.insert("bound".into(), json!({"locale_sets": locale_sets}));
     cov.insert("key_locale_comparisons".into(), json!(*keys_total.lock().unwrap()));
-    rep.finish(cov, &["plural categories at run time use the rendered locale (generated code passes the locale field)"])
+    rep.finish(cov, &["a key written twice in one map: the later occurrence is the key's value (the semantics of serde maps and of the loader's insert)", "plural categories at run time use the rendered locale (generated code passes the locale field)"])
 }
